@@ -6,9 +6,20 @@
 From DustDDS Require Export Base.Machine Sched.StatusCondModel.
 Open Scope Z_scope.
 
+(* what the harness does with the real wait futures: one [HStep] is one poll of
+   the future followed by the worker handling the mail it sent *)
+Inductive hop : Type :=
+| HAdd (c : nat) (k : StatusKind)
+| HRemove (c : nat) (k : StatusKind)
+| HSet (c : nat) (l : list StatusKind)
+| HGet (c : nat)
+| HStart (w : nat) (cs : list nat)   (* drop whatever call waiter w had, build a wait set, call wait() *)
+| HStep (w : nat)
+| HCancel (w : nat).
+
 Inductive C32_case : Type :=
 | CDirect (nc nch : nat) (ops : list dop) (out : list (list Z))
-| CWait (nc nw : nat) (ops : list wop) (out : list (list Z)).
+| CWait (nc nw : nat) (ops : list hop) (out : list (list Z)).
 
 Definition b2z (b : bool) : Z := if b then 1 else 0.
 
@@ -139,17 +150,182 @@ Fixpoint o_run (nc nch : nat) (o : ospec) (ops : list dop) (out : list (list Z))
   | _, _ => false
   end.
 
+
+(* ------------------------------------------------------------- layer B trace *)
+(* How the harness steps map to model steps.  A poll of the future runs it up
+   to the next mail it sends; the worker then handles that mail.  So one HStep
+   is one model step, except that a poll which finds the notification (Await,
+   Ready) goes on to send the first GetTriggerValue of the collect loop in the
+   same poll (two model steps), and that the completion of the call is seen by
+   the poll after the last mail (the caller takes the result: WTake). *)
+Definition pc_of (s : wsys) (w : nat) : wpc :=
+  match nth_error (w_waiters s) w with Some wt => w_pc wt | None => Idle end.
+
+Definition enc (l : list nat) : Z := fold_left (fun a c => a * 16 + Z.of_nat (S c)) l 0.
+Definition res_code (r : res (list nat)) : Z :=
+  match r with
+  | Ok l => enc l
+  | Err 1 => -2      (* PreconditionNotMet *)
+  | Err 2 => -3      (* AlreadyDeleted *)
+  | _ => -4
+  end.
+
+(* the model steps of one harness step, its result code, and whether a mail was sent *)
+Definition h_ops (fx : bool) (s : wsys) (o : hop) : list wop * Z * Z :=
+  match o with
+  | HAdd c k => ([WAdd c k], 0, 0)
+  | HRemove c k => ([WRemove c k], 0, 0)
+  | HSet c l => ([WSetEnabled c l], 0, 0)
+  | HGet c => ([WGetTrigger c], b2z (sys_trigger (w_sys s) c), 0)
+  | HStart w cs => ([WCancel w; WTake w; WStart w cs], 0, 0)
+  | HCancel w => ([WCancel w; WTake w], 0, 0)
+  | HStep w =>
+      match pc_of s w with
+      | Idle => ([], -1, 0)
+      | Done r => ([WTake w], res_code r, 0)
+      | Await =>
+          let s1 := wstep fx s (WStep w) in
+          match pc_of s1 w with
+          | Check2 _ _ => ([WStep w; WStep w], -1, 1)
+          | Done r => ([WStep w; WTake w], res_code r, 0)
+          | _ => ([WStep w], -1, 0)
+          end
+      | _ => ([WStep w], -1, 1)
+      end
+  end.
+
+(* waiters (as a bit mask) whose waker was called during the step, the stepped one excepted *)
+Definition woken_mask (s s' : wsys) (own : option nat) (nw : nat) : Z :=
+  fold_left (fun a w =>
+    match nth_error (w_waiters s') w with
+    | Some wt =>
+        let self := match own with Some o => Nat.eqb o w | None => false end in
+        if has_chan (w_pc wt) && negb self &&
+           (wakes (nth (w_ch wt) (chans (w_sys s)) chan_new) <? wakes (nth (w_ch wt) (chans (w_sys s')) chan_new))%nat
+        then a + 2 ^ Z.of_nat w else a
+    | None => a
+    end) (seq 0 nw) 0.
+
+Fixpoint w_trace (fx : bool) (nc nw : nat) (s : wsys) (ops : list hop) : list (list Z) :=
+  match ops with
+  | [] => []
+  | o :: t =>
+      let '(ms, r, m) := h_ops fx s o in
+      let s' := wrun fx s ms in
+      let own := match o with HStep w => Some w | _ => None end in
+      (r :: m :: sys_triggers (w_sys s') nc ++ [woken_mask s s' own nw]) :: w_trace fx nc nw s' t
+  end.
+
+(* all model steps of a case, for the known class *)
+Fixpoint h_expand (fx : bool) (s : wsys) (ops : list hop) : list wop :=
+  match ops with
+  | [] => []
+  | o :: t => let '(ms, _, _) := h_ops fx s o in ms ++ h_expand fx (wrun fx s ms) t
+  end.
+
+(* ------------------------------------------------- layer B oracle (property) *)
+(* abstract state: per condition the sets enabled / changed; per waiter whether a
+   wait() call is in progress, on which conditions, whether it is blocked (its
+   last poll sent no mail and its waker was not called since), and for every
+   attached condition whether it was true / false during the whole call *)
+Record wsp : Type := mkSp { sp_run : bool; sp_att : list nat; sp_blk : bool;
+                            sp_at : list bool; sp_af : list bool }.
+Record wspec : Type := mkWS { ws_en : list (StatusKind -> bool); ws_chg : list (StatusKind -> bool);
+                              ws_w : list wsp }.
+
+Definition ws_init (nc nw : nat) : wspec :=
+  mkWS (repeat (fun _ => true) nc) (repeat (fun _ => false) nc) (repeat (mkSp false [] false [] []) nw).
+
+Definition ws_trigger (o : wspec) (c : nat) : bool :=
+  spec_trigger (nth c (ws_en o) (fun _ => false)) (nth c (ws_chg o) (fun _ => false)).
+
+Fixpoint dec (fuel : nat) (r : Z) : list nat :=
+  match fuel with
+  | O => []
+  | S f => if r <=? 0 then [] else dec f (r / 16) ++ [Z.to_nat (r mod 16 - 1)]
+  end.
+
+Definition mem (x : nat) (l : list nat) : bool := existsb (Nat.eqb x) l.
+
+(* the result of a finished call: Err(PreconditionNotMet) iff nothing is attached;
+   otherwise a list of attached conditions that contains every condition that was
+   true during the whole call and none that was false during the whole call *)
+Definition result_ok (nc : nat) (sp : wsp) (r : Z) : bool :=
+  sp_run sp &&
+  match sp_att sp with
+  | [] => r =? -2
+  | att =>
+      (0 <=? r) &&
+      let res := dec 16 r in
+      forallb (fun c => mem c att && (c <? nc)%nat) res &&
+      forallb (fun i => let c := nth i att 0%nat in
+                        (negb (nth i (sp_at sp) false) || mem c res) &&
+                        (negb (nth i (sp_af sp) false) || negb (mem c res)))
+              (seq 0 (length att))
+  end.
+
+Definition testbitZ (m : Z) (w : nat) : bool := Z.odd (m / 2 ^ Z.of_nat w).
+
+Definition ws_step (nc nw : nat) (o : wspec) (op : hop) (line : list Z) : wspec * bool :=
+  match line with
+  | r :: m :: obs =>
+      let def := fun _ : StatusKind => false in
+      let en1 := match op with HSet c l => upd (ws_en o) c (set_of_list l) | _ => ws_en o end in
+      let chg1 := match op with
+                  | HAdd c k => upd (ws_chg o) c (set_add (nth c (ws_chg o) def) k)
+                  | HRemove c k => upd (ws_chg o) c (set_del (nth c (ws_chg o) def) k)
+                  | _ => ws_chg o end in
+      let o1 := mkWS en1 chg1 (ws_w o) in
+      let idle := mkSp false [] false [] [] in
+      let '(ws1, ok_op) :=
+        match op with
+        | HStart w cs =>
+            (upd (ws_w o) w (mkSp true cs false (map (fun _ => true) cs) (map (fun _ => true) cs)), true)
+        | HCancel w => (upd (ws_w o) w idle, true)
+        | HStep w =>
+            let sp := nth w (ws_w o) idle in
+            if r =? -1
+            then (upd (ws_w o) w (mkSp (sp_run sp) (sp_att sp) (sp_run sp && (m =? 0)) (sp_at sp) (sp_af sp)), true)
+            else (upd (ws_w o) w idle, result_ok nc sp r)
+        | HGet c => (ws_w o, r =? b2z (ws_trigger o1 c))
+        | _ => (ws_w o, true)
+        end in
+      (* part 1: trigger value = an enabled status has changed, after every op *)
+      let ok_trig := forallb (fun c => nth c obs (-1) =? b2z (ws_trigger o1 c)) (seq 0 nc) in
+      let woken := nth nc obs 0 in
+      let ws2 := map (fun w =>
+                   let sp := nth w ws1 idle in
+                   mkSp (sp_run sp) (sp_att sp) (sp_blk sp && negb (testbitZ woken w))
+                        (map (fun i => nth i (sp_at sp) false && ws_trigger o1 (nth i (sp_att sp) 0%nat))
+                             (seq 0 (length (sp_att sp))))
+                        (map (fun i => nth i (sp_af sp) false && negb (ws_trigger o1 (nth i (sp_att sp) 0%nat)))
+                             (seq 0 (length (sp_att sp)))))
+                   (seq 0 nw) in
+      (* part 2: no waiter is blocked while one of its attached conditions is true *)
+      let ok_blk := forallb (fun sp => negb (sp_run sp && sp_blk sp) ||
+                                       forallb (fun c => negb ((c <? nc)%nat && ws_trigger o1 c)) (sp_att sp)) ws2 in
+      (mkWS en1 chg1 ws2, ok_op && ok_trig && ok_blk && (length obs =? S nc)%nat)
+  | _ => (o, false)
+  end.
+
+Fixpoint ws_run (nc nw : nat) (o : wspec) (ops : list hop) (out : list (list Z)) : bool :=
+  match ops, out with
+  | [], [] => true
+  | op :: t, line :: t' => let (o', ok) := ws_step nc nw o op line in ok && ws_run nc nw o' t t'
+  | _, _ => false
+  end.
+
 (* --------------------------------------------------------------- the three hooks *)
 Definition C32_model_ok (c : C32_case) : bool :=
   match c with
   | CDirect nc nch ops out => zss_eqb (d_trace false nc nch (d_init nc nch) ops) out
-  | CWait nc nw ops out => false
+  | CWait nc nw ops out => zss_eqb (w_trace false nc nw (w_init nc nw) ops) out
   end.
 
 Definition C32_oracle_ok (c : C32_case) : bool :=
   match c with
   | CDirect nc nch ops out => o_run nc nch (o_init nc nch) ops out
-  | CWait nc nw ops out => false
+  | CWait nc nw ops out => ws_run nc nw (ws_init nc nw) ops out
   end.
 
 (* class 1: the history contains a set_enabled_statuses that makes the trigger
@@ -157,5 +333,6 @@ Definition C32_oracle_ok (c : C32_case) : bool :=
 Definition C32_known (c : C32_case) : N :=
   match c with
   | CDirect nc nch ops _ => if d_d6_free false (d_init nc nch) ops then 0%N else 1%N
-  | CWait nc nw ops _ => if w_d6_free false (w_init nc nw) ops then 0%N else 1%N
+  | CWait nc nw ops _ =>
+      if w_d6_free false (w_init nc nw) (h_expand false (w_init nc nw) ops) then 0%N else 1%N
   end.
